@@ -26,11 +26,39 @@ class UserObject(pvl.PVLObject):
 
 CUSTOM = dict(module_class=UserModule, group_class=UserGroup,
               object_class=UserObject)
+
+
+class PlainModule(pvl.collections.OrderedMultiDict):
+    """Container classes that do not derive from PVLModule / PVLGroup /
+    PVLObject: the parsers document any MutableMappingSequence."""
+    _verif_tag = "PVLModule"
+
+
+class PlainGroup(pvl.collections.OrderedMultiDict):
+    _verif_tag = "PVLGroup"
+
+
+class PlainObject(pvl.collections.OrderedMultiDict):
+    _verif_tag = "PVLObject"
+
+
+PLAIN = dict(module_class=PlainModule, group_class=PlainGroup,
+             object_class=PlainObject)
+
+
+def custom_kw(custom):
+    """custom: False/None, True (subclasses of the PVL classes) or "plain"
+    (bare OrderedMultiDict subclasses)."""
+    if not custom:
+        return {}
+    return dict(PLAIN) if custom == "plain" else dict(CUSTOM)
+
+
 STRICT = ["PVL", "ODL", "PDS3"]
 
 
 def make_parser(config, lexer_fn=None, custom=False):
-    kw = dict(CUSTOM) if custom else {}
+    kw = custom_kw(custom)
     if config == "PVL":
         g = PVLGrammar()
         return PVLParser(grammar=g, decoder=PVLDecoder(grammar=g),
@@ -87,7 +115,8 @@ def load(config, text, lexer_fn=None, custom=False):
         return core.guarded(lambda: pvl.new.loads(text, **kw), len(text))
     if config == "default" and lexer_fn is None:
         if custom:
-            return core.guarded(lambda: pvl.loads(text, **CUSTOM), len(text))
+            kw = custom_kw(custom)
+            return core.guarded(lambda: pvl.loads(text, **kw), len(text))
         return core.guarded(lambda: pvl.loads(text), len(text))
     p = make_parser(config, lexer_fn, custom)
     return core.guarded(lambda: pvl.loads(text, parser=p), len(text))
@@ -95,6 +124,18 @@ def load(config, text, lexer_fn=None, custom=False):
 
 def load_route(config, text, route="parser"):
     """The strict dialects can be selected in four documented ways."""
+    if route in ("bytes", "binary-stream"):
+        # the same text handed over as UTF-8 bytes / a binary stream
+        try:
+            data = text.encode()
+        except UnicodeEncodeError:      # lone surrogates have no bytes
+            return load(config, text)
+        p = make_parser(config)
+        if route == "bytes":
+            return core.guarded(lambda: pvl.loads(data, parser=p), len(text))
+        import io
+        return core.guarded(lambda: pvl.load(io.BytesIO(data), parser=p),
+                            len(text))
     if route == "parser" or config in ("ISIS", "default"):
         return load(config, text)
     G = {"PVL": PVLGrammar, "ODL": ODLGrammar, "PDS3": PDSGrammar}[config]
